@@ -346,6 +346,17 @@ impl Worksheet {
         self.update_cell(row, column, cell)
     }
 
+    /// Clears a spill cell that evaluation had created. A spill cell that only carries the
+    /// style of its row or column did not exist as a cell before the spill: it is removed, so
+    /// that the position follows its row or column style again. Otherwise it is left as an
+    /// empty cell with its own style.
+    pub(crate) fn clear_spill_cell(&mut self, row: i32, column: i32) -> Result<(), String> {
+        if self.get_style(row, column) == self.get_row_column_style(row, column) {
+            return self.remove_cell(row, column);
+        }
+        self.cell_clear_contents(row, column)
+    }
+
     pub fn cell_clear_contents_with_style(
         &mut self,
         row: i32,
